@@ -219,4 +219,14 @@ PROPS = {
         'rule': 'one evaluation = one client program built and run; all enumerated programs are distinct; non-trivial = all of them (plus the number of declared functions in the address-of-everything clients)',
         'assumptions': ['gcc 12 and GNU ld as the client toolchain', 'the project Makefile\'s build target defines what "the built library" is'],
     },
+    'C20': {
+        'level': 'exploration',
+        'engine': 'confx',
+        'claim': 'Complete enumeration of a finite program family: 42 (entry point, argument position) pairs - every function of memory.h and array.h that reads, transfers or releases a guarded / unique / shared / weak pointer or an array object - x every object state (NULL / non-NULL; empty / owning / co-owned; empty / weak to live / weak to dead; empty / whole / slice) x copy kind (struct assignment, memcpy, relocation with the original storage scrubbed): the call on the stray copy must end in abort() (not return, not an assertion, not a sanitizer report), and the same call on the original object must still work. The table is cross-checked against the declarations gcc -aux-info finds in the two headers; declared entry points missing from the table are reported in the evidence. The converse (properly moved objects never abort) is the no-unexpected-abort oracle of the C05 and C14 closures.',
+        'note': 'Documented non-aborting calls are excluded: *_init, cstl_guarded_ptr_set and the destination of cstl_guarded_ptr_copy only write the guard (re-stamping it), cstl_array_size never touches the pointer.',
+        'technique': 'exhaustive enumeration of entry point x argument position x object state x copy kind with an abort/return oracle under ASan',
+        'jobs': [{'world': 'stray', 'src': 'worlds/stray_world.c', 'gen': 'lib/gen_decls.py', 'lib': ['memory.c', 'array.c'], 'flavours': RELDBG_ALWAYS}],
+        'rule': 'one evaluation = one call on a stray copy or on the original; non-trivial = calls on stray copies; all points are distinct',
+        'assumptions': ['abort() is observed through ld --wrap=abort (longjmp back into the harness)'],
+    },
 }
